@@ -33,11 +33,12 @@ RULE = (
     "singly / in pairs / all at once; oracle: deep fingerprint + trace equivalence (all-true and all-false guards); "
     "(b) every JSON position of every corpus config x every wrong-typed value from a 9-value menu (types the schema accepts "
     "at that key are skipped), driven through create_machine, start, every event to depth 2 and can(); "
-    "distinct_nontrivial = distinct (machine, rewrite set) + distinct (machine, position, value) cases"
+    "(c) every pair of distinct states of every TREE universal machine and COLLIDE machine given the same custom id (siblings, different branches, a state and its descendant): must be rejected with an XStateMachineError; "
+    "distinct_nontrivial = distinct (machine, rewrite set) + distinct (machine, position, value) + distinct (machine, state pair) cases"
 )
 BOUNDS = {
-    "quick": "10 corpus machines + TREE(N<=2) respellings + 3 key-colliding machines; single rewrites + all-at-once; all single-point corruptions",
-    "thorough": "10 corpus machines + TREE(N<=3) respellings + 6 key-colliding machines; single, paired and all-at-once rewrites; all single-point corruptions",
+    "quick": "10 corpus machines + TREE(N<=2) respellings + 3 key-colliding machines; single rewrites + all-at-once; all single-point corruptions; duplicate-id pairs over TREE(N<=3) + COLLIDE",
+    "thorough": "10 corpus machines + TREE(N<=3) respellings + 6 key-colliding machines; single, paired and all-at-once rewrites; all single-point corruptions; duplicate-id pairs over TREE(N<=4) + COLLIDE",
 }
 ASSUMPTIONS = [
     "spellings are generated from a reference resolver written from the documented resolution rules; only spellings it maps to the same state are used",
@@ -581,14 +582,48 @@ def machine_by_name(name: str):
         return C.corpus()[name]
     if name.startswith("collide:"):
         return collide_machines("thorough")[name]
-    for t in F.trees_upto(3):
+    for t in F.trees_upto(4):
         if F.tree_str(t) == name:
             return F.universal_config(t, reenter_all=False)[0]
     raise KeyError(name)
 
 
+def run_dupids(label: str, cfg, res):
+    """Every pair of distinct non-root, non-history states is given the SAME custom id (siblings, cousins, a state and
+    its descendant, states of different depth): duplicate ids are rejected with an XStateMachineError, never accepted
+    with one of the two silently winning.  One of the states' events is retargeted at '#dup' so that, were the machine
+    accepted, the id would be in use."""
+    paths = [p for p, n in walk_states(cfg) if p and n.get("type") != "history"]
+    for a, b in itertools.combinations(paths, 2):
+        c2 = copy.deepcopy(cfg)
+        get_at(c2, a)["id"] = "dup"
+        get_at(c2, b)["id"] = "dup"
+        on = get_at(c2, a).setdefault("on", {})
+        on["TO_DUP"] = {"target": "#dup"}
+        res["evaluations"] += 1
+        res["executions"] += 1
+        res["distinct_count"] += 1
+        exc, _ = drive(c2)
+        rel = "state-and-descendant" if (b[:len(a)] == a or a[:len(b)] == b) else ("siblings" if a[:-2] == b[:-2] else "different-branches")
+        where = f"{'.'.join(str(x) for x in a if x != 'states')} and {'.'.join(str(x) for x in b if x != 'states')}"
+        if exc is None:
+            res["violations"].append(dict(
+                signature=f"C18|duplicate-id-accepted|{rel}", clause="silently-accepted",
+                what=f"machine {label}: states {where} both declare id 'dup' and the config is accepted (create_machine, start, can)",
+                size=len(a) + len(b), replay=dict(kind="dupid", machine=label, a=list(a), b=list(b))))
+        elif not isinstance(exc, XStateMachineError):
+            res["violations"].append(dict(
+                signature=f"C18|duplicate-id-raw-{type(exc).__name__}|{rel}", clause="raw-exception",
+                what=f"machine {label}: states {where} both declare id 'dup': raw {type(exc).__name__}: {exc}",
+                size=len(a) + len(b), replay=dict(kind="dupid", machine=label, a=list(a), b=list(b))))
+
+
 def units(tier: str) -> List[Any]:
     us: List[Any] = []
+    for t in F.trees_upto(3 if tier == "quick" else 4):
+        us.append(("dupid", t, tier))
+    for name in collide_machines(tier):
+        us.append(("dupid", name, tier))
     for name in C.corpus():
         us.append(("equiv", name, tier))
         us.append(("corrupt", name, tier))
@@ -636,6 +671,12 @@ def run_unit(unit):
         for rw in rws:
             check_equiv(payload, cfg, [rw], res, payload)
         res["samples"].append(dict(machine=payload, target_respellings=len(rws), example=[d for d, _ in rws[:3]]))
+    elif kind == "dupid":
+        if isinstance(payload, str):
+            run_dupids(payload, collide_machines(tier)[payload], res)
+        else:
+            run_dupids(F.tree_str(payload), F.universal_config(payload, reenter_all=False)[0], res)
+        res["samples"].append(dict(machine=payload if isinstance(payload, str) else F.tree_str(payload), duplicate_id_pairs=res["evaluations"]))
     elif kind == "corrupt":
         run_corruptions(payload, C.corpus()[payload], res)
         res["samples"].append(dict(machine=payload, corruptions=res["evaluations"]))
@@ -669,6 +710,14 @@ def replay(payload):
         if exc is not None and not isinstance(exc, XStateMachineError):
             return [dict(signature="C18|raw", what=repr(exc))]
         return []
+    if payload["kind"] == "dupid":
+        cfg = copy.deepcopy(machine_by_name(payload["machine"]))
+        get_at(cfg, payload["a"])["id"] = "dup"
+        get_at(cfg, payload["b"])["id"] = "dup"
+        get_at(cfg, payload["a"]).setdefault("on", {})["TO_DUP"] = {"target": "#dup"}
+        exc, _ = drive(cfg)
+        print("  outcome:", repr(exc))
+        return [] if isinstance(exc, XStateMachineError) else [dict(signature="C18|duplicate-id", what=repr(exc))]
     if payload["kind"] == "equiv":
         cfg = machine_by_name(payload["machine"])
         allrw = dict(rewrites(cfg) + target_rewrites(cfg))
